@@ -28,6 +28,42 @@ type c12Scenario struct {
 	Pre  string `json:"pre,omitempty"`
 	Conf string `json:"conf,omitempty"`
 	H0   uint32 `json:"h0,omitempty"`
+	// Fault (disp, Pre chain/user): what the go-to-chain step runs into.
+	//   dataloss    ForceCloseChan answers ErrForceCloseLocalDataLoss
+	//   doublespend PublishTx answers ErrDoubleSpend (e.g. the peer's commitment is
+	//               already in the mempool)
+	//   mempoolfee  PublishTx answers ErrMempoolFee
+	//   pubfail     PublishTx fails with another error
+	Fault string `json:"fault,omitempty"`
+	// Restart (disp): node restarts at quiescent points of the history.
+	//   pre        after the go-to-chain step, before anything confirms
+	//   redeliver  the close event was logged and the channel marked closed, but
+	//              the state machine did not advance; the next start finds a
+	//              closing channel (IsPendingClose, CloseType, ClosingHeight)
+	//   unmarked   the close event was logged but the channel not yet marked
+	//              closed when the node stopped; the restarted arbitrator (open
+	//              channel) processes a block (Pre "chain": at H0, this IS the
+	//              go-to-chain step; Pre "none": at H0-20, where nothing is at its
+	//              cutoff), then the chain watcher delivers the event again
+	//   pre+redeliver  both of the first two
+	Restart string `json:"restart,omitempty"`
+}
+
+// vtag is the signature suffix naming every non-default audit dimension of the
+// execution (cell dimensions, fault, restart); empty for the original lattice, so
+// original signatures are unchanged.
+func vtag(c *c12Cell, sc c12Scenario) string {
+	t := c.vtags()
+	if sc.Fault != "" {
+		t = append(t, sc.Fault)
+	}
+	if sc.Restart != "" {
+		t = append(t, "restart:"+sc.Restart)
+	}
+	if len(t) == 0 {
+		return ""
+	}
+	return "/v=" + strings.Join(t, ",")
 }
 
 type c12Viol struct {
@@ -53,9 +89,9 @@ func atCutoff(h, exp, delta uint32) bool { return uint64(h)+uint64(delta) >= uin
 // known.
 func mustClose(c *c12Cell, x c12HTLC, h uint32) bool {
 	if x.In {
-		return x.Pre != c12PreNone && atCutoff(h, x.Exp, c.DIn)
+		return c12Known(x.Pre) && atCutoff(h, x.Exp, c.DIn)
 	}
-	return x.Pre == c12PreNone && (x.Fwd || c.GracePassed) && atCutoff(h, x.Exp, c.DOut)
+	return !c12Known(x.Pre) && (x.Fwd || c.GracePassed) && atCutoff(h, x.Exp, c.DOut)
 }
 
 type c12TimeResult struct {
@@ -71,6 +107,7 @@ func runTime(cell c12Cell, sc c12Scenario, info func(string, ...any)) (res c12Ti
 	cell = w.cell
 	res.ClosedAt, res.FirstMust = -1, -1
 	foreignSeen := false
+	vt := vtag(&cell, sc)
 	defer func() {
 		if v := recover(); v != nil {
 			viols = append(viols, c12Viol{
@@ -79,6 +116,7 @@ func runTime(cell c12Cell, sc c12Scenario, info func(string, ...any)) (res c12Ti
 			})
 		}
 	}()
+	w.lateFeed(sc.Lo - 20)
 	for h := sc.Lo; h <= sc.Hi; h++ {
 		must := -1
 		for k, x := range cell.HTLCs {
@@ -128,7 +166,7 @@ func runTime(cell c12Cell, sc c12Scenario, info func(string, ...any)) (res c12Ti
 				delta = cell.DIn
 			}
 			viols = append(viols, c12Viol{
-				Sig: fmt.Sprintf("time/no-force-close-by-cutoff/htlc=%s/n=%d", x.desc(cell.HasPending), len(cell.HTLCs)),
+				Sig: fmt.Sprintf("time/no-force-close-by-cutoff/htlc=%s/n=%d%s", x.desc(cell.HasPending), len(cell.HTLCs), vt),
 				What: fmt.Sprintf("height %d is within %d blocks of the expiry %d of HTLC #%d (%s) but ForceCloseChan "+
 					"was not called (delta_out=%d delta_in=%d grace_passed=%v)", h, delta, x.Exp, must,
 					x.desc(cell.HasPending), cell.DOut, cell.DIn, cell.GracePassed),
@@ -157,7 +195,7 @@ func runTime(cell c12Cell, sc c12Scenario, info func(string, ...any)) (res c12Ti
 				if atCutoff(h, x.Exp, cell.DOut) {
 					offeredAt = x
 				}
-			case x.Pre != c12PreNone:
+			case c12Known(x.Pre):
 				other = x
 			default:
 				if unclaimable == nil || atCutoff(h, x.Exp, cell.DIn) {
@@ -174,8 +212,8 @@ func runTime(cell c12Cell, sc c12Scenario, info func(string, ...any)) (res c12Ti
 			res.Class = "closed-early-while-another-htlc-is-pending"
 		case unclaimable != nil:
 			viols = append(viols, c12Viol{
-				Sig: fmt.Sprintf("time/closed-merely-for-unclaimable-received/htlc=%s/n=%d",
-					unclaimable.desc(cell.HasPending), len(cell.HTLCs)),
+				Sig: fmt.Sprintf("time/closed-merely-for-unclaimable-received/htlc=%s/n=%d%s",
+					unclaimable.desc(cell.HasPending), len(cell.HTLCs), vt),
 				What: fmt.Sprintf("ForceCloseChan at height %d although the channel holds only received HTLCs whose "+
 					"preimage is unknown (e.g. %s, expiry %d, delta_in=%d)", h,
 					unclaimable.desc(cell.HasPending), unclaimable.Exp, cell.DIn),
@@ -208,15 +246,31 @@ func runDisp(cell c12Cell, sc c12Scenario, info func(string, ...any)) (res c12Di
 	defer func() {
 		if v := recover(); v != nil {
 			viols = append(viols, c12Viol{
-				Sig:  fmt.Sprintf("disp/panic/pre=%s/conf=%s", sc.Pre, sc.Conf),
+				Sig:  fmt.Sprintf("disp/panic/pre=%s/conf=%s%s", sc.Pre, sc.Conf, vtag(&cell, sc)),
 				What: fmt.Sprintf("panic in advanceState: %v\n%s", v, debug.Stack()),
 			})
 		}
 	}()
 	hc := sc.H0
+	w.lateFeed(sc.H0 - 20)
+	w.mu.Lock()
+	w.fault = sc.Fault
+	w.mu.Unlock()
+	unmarked := sc.Restart == "unmarked"
+	if unmarked {
+		// The close event's log writes happened, then the node stopped before
+		// the channel was marked closed. Not yet a confirmation the arbitrator
+		// acts on: the phase stays 0 until the event is delivered again.
+		w.persistClose(sc.Conf)
+		w.info("close event (%s) written to the log, node stops before marking the channel closed", sc.Conf)
+	}
 	switch sc.Pre {
 	case "chain":
-		w.advance(sc.H0, chainTrigger, nil)
+		if unmarked {
+			w.restart(sc.H0, nil)
+		} else {
+			w.advance(sc.H0, chainTrigger, nil)
+		}
 		if w.snapshot().ForceCloses == 0 {
 			// Nothing forced a close at H0: the rest would duplicate Pre=none.
 			res.Skipped = "no-close-at-h0"
@@ -227,8 +281,19 @@ func runDisp(cell c12Cell, sc c12Scenario, info func(string, ...any)) (res c12Di
 	case "user":
 		w.advance(sc.H0, userTrigger, nil)
 		hc++
+	default:
+		if unmarked {
+			w.restart(sc.H0-20, nil)
+		}
 	}
-	w.confirm(hc, sc.Conf)
+	if sc.Restart == "pre" || sc.Restart == "pre+redeliver" {
+		w.restart(sc.H0, nil)
+	}
+	if sc.Restart == "redeliver" || sc.Restart == "pre+redeliver" {
+		w.confirmThenRestart(hc, sc.Conf)
+	} else {
+		w.confirm(hc, sc.Conf)
+	}
 	obs = w.snapshot()
 	res.Classes, viols = judgeDisp(&cell, sc, &obs)
 	return
@@ -254,6 +319,15 @@ func shortKind(kind string) string {
 // judgeDisp is sentences 2 and 3 of C12.
 func judgeDisp(c *c12Cell, sc c12Scenario, o *c12Obs) (classes []string, viols []c12Viol) {
 	pfx := fmt.Sprintf("pre=%s/conf=%s", sc.Pre, sc.Conf)
+	vt := vtag(c, sc)
+	// cpfx: prefix of the outcome classes (coverage accounting only).
+	cpfx := pfx
+	if sc.Fault != "" {
+		cpfx += "/fault=" + sc.Fault
+	}
+	if sc.Restart != "" {
+		cpfx += "/restart=" + sc.Restart
+	}
 	add := func(clause string, x *c12HTLC, what string) {
 		d := "-"
 		if x != nil {
@@ -270,7 +344,7 @@ func judgeDisp(c *c12Cell, sc c12Scenario, o *c12Obs) (classes []string, viols [
 			}
 		}
 		viols = append(viols, c12Viol{
-			Sig:      fmt.Sprintf("disp/%s/%s/htlc=%s", clause, pfx, d),
+			Sig:      fmt.Sprintf("disp/%s/%s/htlc=%s%s", clause, pfx, d, vt),
 			What:     what,
 			MapOrder: x != nil && x.mapOrderSensitive(),
 		})
@@ -338,7 +412,7 @@ func judgeDisp(c *c12Cell, sc c12Scenario, o *c12Obs) (classes []string, viols [
 			continue
 		}
 		if !threeCommit {
-			classes = append(classes, pfx+"|htlc-resolver-on-"+sc.Conf)
+			classes = append(classes, cpfx+"|htlc-resolver-on-"+sc.Conf)
 			continue
 		}
 		if r.Hash != c12CommitHash[key].String()[:8] {
@@ -362,8 +436,8 @@ func judgeDisp(c *c12Cell, sc c12Scenario, o *c12Obs) (classes []string, viols [
 		pk := int8(c12Absent)
 		if threeCommit {
 			pk = x.on(key)
-			rs = resAt[uint32(outIndexOn(key, k))]
-			delete(resAt, uint32(outIndexOn(key, k)))
+			rs = resAt[uint32(c.outIdx(key, k))]
+			delete(resAt, uint32(c.outIdx(key, k)))
 		}
 		rk := "none"
 		if len(rs) > 0 {
@@ -373,7 +447,7 @@ func judgeDisp(c *c12Cell, sc c12Scenario, o *c12Obs) (classes []string, viols [
 			}
 		}
 		classes = append(classes, fmt.Sprintf("%s|%s|onconf=%s|res=%s|fail=%d+%d|final=%d/%d",
-			pfx, x.desc(c.HasPending), presCh(pk), rk, fp, fq, ff, fs))
+			cpfx, x.desc(c.HasPending), presCh(pk), rk, fp, fq, ff, fs))
 		if !threeCommit {
 			// Breach / cooperative close: sentence 2 speaks about the three
 			// valid commitments only. Recorded, not judged.
@@ -389,7 +463,7 @@ func judgeDisp(c *c12Cell, sc c12Scenario, o *c12Obs) (classes []string, viols [
 			// "every HTLC with an output on it gets exactly one on-chain resolver"
 			switch {
 			case len(rs) == 0:
-				add("resolver-missing", x, fmt.Sprintf("HTLC #%d has output %d on the confirmed %s commitment but no resolver was inserted", k, outIndexOn(key, k), sc.Conf))
+				add("resolver-missing", x, fmt.Sprintf("HTLC #%d has output %d on the confirmed %s commitment but no resolver was inserted", k, c.outIdx(key, k), sc.Conf))
 			case len(rs) > 1:
 				add("resolver-duplicate", x, fmt.Sprintf("HTLC #%d has %d resolvers: %v", k, len(rs), rs))
 			case kindDir(rs[0].Kind) != dir:
@@ -399,12 +473,12 @@ func judgeDisp(c *c12Cell, sc c12Scenario, o *c12Obs) (classes []string, viols [
 			// still has an output on the confirmed commitment."
 			if !x.In && fq > 0 {
 				add("failback-with-output/issued=after-confirmation", x, fmt.Sprintf(
-					"offered HTLC #%d (idx %d) has output %d on the confirmed %s commitment, yet %d upstream fail(s) were issued after the confirmation", k, x.Idx, outIndexOn(key, k), sc.Conf, fq))
+					"offered HTLC #%d (idx %d) has output %d on the confirmed %s commitment, yet %d upstream fail(s) were issued after the confirmation", k, x.Idx, c.outIdx(key, k), sc.Conf, fq))
 			}
 			if !x.In && fp > 0 {
 				add("failback-with-output/issued=before-confirmation", x, fmt.Sprintf(
 					"offered HTLC #%d (idx %d) was failed back upstream (%d msg) at the go-to-chain step (%s trigger, height %d), before anything confirmed; the %s commitment then confirmed and the HTLC has output %d on it (and a resolver: %s)",
-					k, x.Idx, fp, sc.Pre, sc.H0, sc.Conf, outIndexOn(key, k), rk))
+					k, x.Idx, fp, sc.Pre, sc.H0, sc.Conf, c.outIdx(key, k), rk))
 			}
 
 		case !x.In && pk == c12Dust:
@@ -423,7 +497,7 @@ func judgeDisp(c *c12Cell, sc c12Scenario, o *c12Obs) (classes []string, viols [
 			// "... or exists only on a non-confirmed commitment is failed back
 			// upstream exactly once (the latter unless its preimage is already
 			// known)"
-			if x.Pre != c12PreNone {
+			if c12Known(x.Pre) {
 				break
 			}
 			switch n := fp + fq; {
